@@ -2,7 +2,7 @@
    LicTop.canonicalize_license_expression.  Properties/C19.v restates them. *)
 From Coq Require Import List Arith NArith Bool.
 Import ListNotations.
-Require Import VParse LicModel LicAuto LicSpec LicLex LicCode LicIdem LicGrammar LicTable LicTop LicFinal SpdxTable LicIds LicLayout LicTree.
+Require Import VParse LicModel LicAuto LicSpec LicLex LicCode LicIdem LicGrammar LicTable LicTop LicFinal SpdxTable LicIds LicLayout LicTree LicSpecX.
 Open Scope N_scope.
 
 Notation lic_ids := (map snd licenses).
@@ -81,3 +81,9 @@ Lemma finalb_total s : (exists o, canonicalize s = Ok o) \/ canonicalize s = Err
 Proof.
   destruct (canonicalize s) as [o| |o|] eqn:E; eauto. exfalso. now apply (canon_no_crash licenses exceptions s).
 Qed.
+
+(* ---------------------------------------------------------------- the observation l.spec runs the specification itself *)
+Lemma xrun_eq l e ts : forall m d, xrun l e m d ts = run str l e m d ts.
+Proof. induction ts as [|t r IH]; intros m d; [reflexivity|]. destruct m, t; cbn [xrun run]; rewrite ?IH; try reflexivity; destruct d; auto. Qed.
+Lemma spec_canon_x_eq lics excs s : spec_canon_x lics excs s = spec_canon lics excs s.
+Proof. unfold spec_canon_x, spec_canon, spdx_tokens_ok, spdx_ok. now rewrite xrun_eq. Qed.
